@@ -149,10 +149,27 @@ def check_part_order(run: Run) -> None:
     # order of the first `lines.append/extend` that mentions each part
     first: dict[str, int] = {}
     end_pos = None
+    # locals bound once to `doc.<part>` (aliases written for readability) are read as that attribute
+    alias: dict[str, str] = {}
+    for a in walk_no_nested(fi.node):
+        if isinstance(a, ast.Assign) and len(a.targets) == 1 and isinstance(a.targets[0], ast.Name) and isinstance(a.value, ast.Attribute) and isinstance(a.value.value, ast.Name) and a.value.value.id == "doc" and a.value.attr in PARTS:
+            nm = a.targets[0].id
+            if sum(1 for b in walk_no_nested(fi.node) if isinstance(b, (ast.Assign, ast.AugAssign, ast.AnnAssign)) and any(isinstance(x, ast.Name) and x.id == nm and isinstance(x.ctx, ast.Store) for x in ast.walk(b))) == 1:
+                alias[nm] = f"doc.{a.value.attr}"
+
+    def _txt(node: ast.AST) -> str:
+        t = _text(node)
+        if alias:
+            import re as _re
+
+            for nm, full in alias.items():
+                t = _re.sub(rf"(?<![\w.]){_re.escape(nm)}(?![\w])", full, t)
+        return t
+
     for st in fi.node.body:  # type: ignore[attr-defined]
         for n in ast.walk(st):
             if isinstance(n, ast.Call) and isinstance(n.func, ast.Attribute) and n.func.attr in ("append", "extend") and _text(n.func.value) == "lines":
-                txt = _text(n)
+                txt = _txt(n)
                 for part in PARTS:
                     if f"doc.{part}" in txt and part not in first:
                         first[part] = n.lineno
@@ -168,7 +185,7 @@ def check_part_order(run: Run) -> None:
                 hdr = st.test
             elif isinstance(st, ast.For):
                 hdr = st.iter
-            if hdr is not None and f"doc.{part}" in _text(hdr) and any(isinstance(n, ast.Call) and isinstance(n.func, ast.Attribute) and n.func.attr in ("append", "extend") and _text(n.func.value) == "lines" for n in ast.walk(st)):
+            if hdr is not None and f"doc.{part}" in _txt(hdr) and any(isinstance(n, ast.Call) and isinstance(n.func, ast.Attribute) and n.func.attr in ("append", "extend") and _text(n.func.value) == "lines" for n in ast.walk(st)):
                 first[part] = st.lineno
     missing = [x for x in PARTS if x not in first]
     if missing or end_pos is None:
